@@ -1486,7 +1486,24 @@ impl CodegenContext {
 
                 for (symbol_nx, def) in macro_defs {
                     if s.symbol_definition(symbol_nx).is_unused() {
-                        let _ = s.emit_tokens(&def.block);
+                        // Just like a real invocation the body gets a scope of its own, in which the arguments exist.
+                        // Otherwise the symbols the macro defines would end up in (and clash with) the root scope.
+                        let macro_scope =
+                            Identifier::new(format!("$macro_{}", s.next_macro_scope_id));
+                        s.next_macro_scope_id += 1;
+                        let _ = s.with_scope(&macro_scope, None, |s| {
+                            for arg_name in &def.args {
+                                let _ = s.add_symbol(
+                                    &arg_name.data,
+                                    s.symbol(
+                                        arg_name.span,
+                                        SymbolData::Placeholder,
+                                        SymbolType::MacroArgument,
+                                    ),
+                                );
+                            }
+                            s.emit_tokens(&def.block)
+                        });
                     }
                 }
 
